@@ -75,6 +75,9 @@ def gen_imports(rng, n):
                 nm = nm + " /* c */ as " + rng.pick(["q", "a"])
             elif r == 3:
                 nm = "/* k */ " + nm
+            elif r == 4 and "." in nm:
+                # a comment inside the dotted path of an item (two levels below the item when it is renamed)
+                nm = nm.replace(".", rng.pick(["./* p */", " /* p */.", ". // p\n  "]), 1) + rng.pick(["", " as y"])
             items.append(nm)
         sep = rng.pick([", ", ",", " ,\n  ", ", // x\n  "]) if rng.chance(1, 4) else ", "
         body = sep.join(items) + (rng.pick(["", ","]))
@@ -122,13 +125,17 @@ def nested_family(kind, depth):
         return "#{\n  " + "aaaaaaaaaaaaaaaaaaaaaaaa.bbbbbbbbbbbbbbbbbbbbbbbb.cc(x, " * depth + "1" + ")" * depth + "\n}\n"
     if kind == "letclosure":
         return "#let f = " + "(x) => g(" * depth + "1" + ")" * depth + "\n"
+    if kind == "blockcall":
+        return "#" + "f(a.b[#" * depth + "x" + "])" * depth + "\n"
+    if kind == "selfchain":
+        return "#" + "calc.inner.f(" * depth + "1" + ")" * depth + "\n"
     if kind == "strong":
         return ("*a _b " * depth) + ("_ c* " * depth) + "\n"
     return "x\n"
 
 
 FAMILIES = ["call", "array", "dict", "content", "block", "chain", "binary", "closure", "math", "list", "cond", "paren",
-            "callarg", "strong", "dotcall", "dotcall2", "letclosure"]
+            "callarg", "strong", "dotcall", "dotcall2", "letclosure", "blockcall", "selfchain"]
 
 
 def damaged(rng, src):
@@ -202,7 +209,8 @@ def build_cases(tier, seed, extra=None):
         out.append(("G6", [80, 20, 0][i % 3], 2, 1, s))
         out.append(("G6", [80, 20, 0][i % 3], 2, 0, s))
     # G5 nested families
-    depths = [1, 2, 4, 8, 16] if tier == "quick" else [1, 2, 4, 8, 16, 32, 64]
+    # depth 24: a converter that does its work twice per level needs 2^24 conversions there and is reported as a hang
+    depths = [1, 2, 4, 8, 16, 24] if tier == "quick" else [1, 2, 4, 8, 16, 24, 32, 64]
     for fam in FAMILIES:
         for d in depths:
             out.append(("G5:" + fam, 80, 2, 0, nested_family(fam, d)))
